@@ -33,6 +33,9 @@ claimed = {
  "C12": ("typestate/pairing analysis on SSA (setup/defer-teardown pairing, set symmetry table, single filter funnel with dominance)",
          "Structural necessary conditions: single funnel behind the ignore filter, setup/teardown paired by defer on the same node and outside loops, every set filled by a Setup variant cleared by its Teardown variant under the same directive, IsEnable consults all sets with the rule. Decides that a directive's effect cannot outlive its statement/block; does not decide directive text parsing.",
          "trusts go/ssa; the directive→set table is transcribed from the property statement", "DESIGN.md §4 C12"),
+ "C06": ("state-machine extraction on SSA: path walk of every Process<Scope> with the returned action bound to each State constant (phi and string-test resolution, NONE remapping followed) compared with the Fastly transition table; successor-count dataflow over {0,1,2+} to every may-succeed return; restart guard dominance and limit constant; cache branch selection by nil-ness of cache.Get with marker/flag pairing; who-may-assign the cross-request stores; report field census",
+         "Structural necessary conditions: all 98 (scope, action) cells of the compiled transition function equal the documented table; every successful path through a non-terminal scope calls exactly one successor (so vcl_log runs last and once); restart re-enters vcl_recv only below three restarts; hit/miss is chosen by the cache lookup of the request hash and recorded in ctx.State/X-Cache and process.Cached; cache, rate counters and penalty boxes are created once per simulator; the report reads what was recorded. Decides the transition structure for all programs; not cache expiry arithmetic or counter values.",
+         "trusts go/ssa; the transition table in c06.go is a transcription of the property statement and the Fastly lifecycle the code cites; one named exception (purge requests stop after vcl_recv)", "DESIGN.md §4 C06"),
  "C17": ("pairing/typestate rules on SSA: canonicaliser requirement on the assigned-key set (same callee in IsAssigned/Assign/Unassign, who-may-touch), must-follow path analysis pairing Header.Del with Unassign and Header.Set/Add with Assign on the same key (canonical access paths), case-insensitive comparison rule for loops over canonical header keys, separator agreement",
          "Structural necessary conditions of the header store laws: the set/not-set bookkeeping is keyed canonically like net/http; every VCL-visible delete un-assigns and every write assigns the same key on every path; wildcard matching compares canonical forms. Decides the keying/pairing shape for all histories and spellings; not the sub-field regular-expression algebra.",
          "trusts go/ssa; scope of hdr.pair is interpreter/variable (the VCL-visible write paths)", "DESIGN.md §4 C17"),
